@@ -5,6 +5,7 @@
 package schk
 
 import (
+	"bytes"
 	"encoding/json"
 	"fmt"
 	"os"
@@ -92,7 +93,7 @@ func Main(r *ev.Run, scenarios []Scenario, budget time.Duration, finish func(r *
 		worker(scenarios, sh, budget)
 		return
 	}
-	coordinate(r, scenarios, finish)
+	coordinate(r, scenarios, budget, finish)
 }
 
 func worker(scenarios []Scenario, sh string, budget time.Duration) {
@@ -294,7 +295,7 @@ func short(s string) string {
 	return s
 }
 
-func coordinate(r *ev.Run, scenarios []Scenario, finish func(r *ev.Run)) {
+func coordinate(r *ev.Run, scenarios []Scenario, budget time.Duration, finish func(r *ev.Run)) {
 	k := runtime.NumCPU()
 	if k > len(scenarios) {
 		k = len(scenarios)
@@ -331,7 +332,24 @@ func coordinate(r *ev.Run, scenarios []Scenario, finish func(r *ev.Run)) {
 			if t.bin == raceBin {
 				cmd.Env = append(cmd.Env, fmt.Sprintf("GORACE=halt_on_error=0 log_path=%s/race-%d", dir, t.shard))
 			}
-			o, err := cmd.CombinedOutput()
+			// a worker whose model thread spins without ever reaching a scheduling point (an
+			// unsynchronised busy loop in the code under test) would never finish: it is killed well
+			// after its budget and reported, instead of hanging the check
+			var outBuf bytes.Buffer
+			cmd.Stdout, cmd.Stderr = &outBuf, &outBuf
+			err := cmd.Start()
+			if err == nil {
+				done := make(chan error, 1)
+				go func() { done <- cmd.Wait() }()
+				select {
+				case err = <-done:
+				case <-time.After(budget*2 + 4*time.Minute):
+					cmd.Process.Kill()
+					<-done
+					err = fmt.Errorf("killed: no result %v after its budget of %v (a model thread that never reaches a scheduling point, e.g. a busy loop on unsynchronised state?)", budget+4*time.Minute, budget)
+				}
+			}
+			o := outBuf.Bytes()
 			b, rerr := os.ReadFile(out)
 			if (rerr != nil || json.Unmarshal(b, &results[ti]) != nil) && strings.Contains(string(o), "fatal error:") {
 				// the Go runtime itself died in a worker (stack overflow, concurrent map access, ...):
